@@ -139,6 +139,8 @@ def targeted(chk, cases, bad, extra):
     plain_subclass_probe(chk, extra)
     dnc_family_ctor_probe(chk, extra)
     plain_ctor_probe(chk, extra)
+    import c08_sentinel
+    c08_sentinel.probe(chk, extra)
     extra["rule"] = extra.get("rule", "") + "; plain-constructor histories = peers of plain / spec classes built from the same mutable argument objects, in-place mutation through every holder, del / reset, further peers; reset histories = construct, in-place mutation, del / reset_<a> / reset (in place or copy), fresh instance of the same class, `same` assertion per reset attribute"
 
 
